@@ -12,7 +12,7 @@ TInit == /\ tid \in 1..Len(Traces) /\ l = 1 /\ bad = "none" /\ fam = "none"
          /\ conf = Traces[tid].conf
          /\ now = Traces[tid].t0 /\ pc = "init" /\ wake = Traces[tid].t0 + conf.initdelay /\ started = 0 /\ lastReset = Traces[tid].t0
          /\ out = [k |-> "ok", d |-> 0] /\ retry = 0
-         /\ pStart = 0 /\ pEnd = 0 /\ pOut = "none" /\ pDelay = 0 /\ runs = 0 /\ rs = 0 /\ changes = 0 /\ fails = 0 /\ stopped = FALSE
+         /\ pStart = 0 /\ pEnd = 0 /\ pOut = "none" /\ pDelay = 0 /\ runs = 0 /\ rs = 0 /\ changes = 0 /\ fails = 0 /\ stopped = FALSE /\ respawned = 0 /\ matching = TRUE /\ forever = FALSE
 Ev(e) == l <= Len(T) /\ E.ev = e /\ E.t = now /\ l' = l + 1 /\ UNCHANGED tid
 TStart == Ev("start") /\ HeadWith(E.dur, [k |-> E.k, d |-> E.d]) /\ pc' = "run" /\ retry = E.retry
 TEnd == Ev("end") /\ End
@@ -21,16 +21,19 @@ TChange == Ev("change") /\ Change
 \* the echo of the timer's own status patch included -- counts as a change and restarts the idle period
 TSelf == Ev("selfchange") /\ Traces[tid].nochange /\ Change
 TStop == Ev("stop") /\ (IF stopped THEN UNCHANGED vars ELSE Stop)
+\* the object matches the filters again: a new instance, unless the last run of the old one is still in progress
+TRematch == Ev("rematch") /\ (IF matching THEN UNCHANGED vars ELSE Rematch)
+TUnmatch == Ev("unmatch") /\ (IF matching THEN Unmatch ELSE UNCHANGED vars)
 TQuiet == Ev("quiet") /\ ~Urgent /\ UNCHANGED vars
 SilentHead == HeadWith(0, [k |-> "ok", d |-> 0]) /\ pc' \in {"poll", "idle"} /\ UNCHANGED <<tid, l>>
 Advance == /\ l <= Len(T) /\ E.t > now /\ ~Urgent
            /\ now' = (IF pc # "done" /\ wake > now /\ wake < E.t THEN wake ELSE E.t)     \* never jump over a due wake-up
-           /\ UNCHANGED <<pc, wake, started, lastReset, out, retry, pStart, pEnd, pOut, pDelay, runs, rs, changes, fails, conf, stopped, tid, l>>
-AllInv == FirstRun /\ NoOverlap /\ IdleLaw /\ AfterOk /\ AfterOkSharp /\ AfterTemp /\ AfterExc /\ PermanentEndsIt
-FirstBad == IF ~FirstRun THEN "FirstRun" ELSE IF ~NoOverlap THEN "NoOverlap" ELSE IF ~IdleLaw THEN "IdleLaw" ELSE IF ~AfterOk THEN "AfterOk"
+           /\ UNCHANGED <<pc, wake, started, lastReset, out, retry, pStart, pEnd, pOut, pDelay, runs, rs, changes, fails, conf, stopped, respawned, matching, forever, tid, l>>
+AllInv == RespawnedFirst /\ FirstRun /\ NoOverlap /\ IdleLaw /\ AfterOk /\ AfterOkSharp /\ AfterTemp /\ AfterExc /\ PermanentEndsIt
+FirstBad == IF ~RespawnedFirst THEN "RespawnedFirst" ELSE IF ~FirstRun THEN "FirstRun" ELSE IF ~NoOverlap THEN "NoOverlap" ELSE IF ~IdleLaw THEN "IdleLaw" ELSE IF ~AfterOk THEN "AfterOk"
             ELSE IF ~AfterOkSharp THEN "AfterOkSharp" ELSE IF ~AfterTemp THEN "AfterTemp" ELSE IF ~AfterExc THEN "AfterExc"
             ELSE IF ~PermanentEndsIt THEN "PermanentEndsIt" ELSE "none"
-TNext == /\ (TStart \/ TEnd \/ TChange \/ TSelf \/ TStop \/ TQuiet \/ SilentHead \/ Advance) /\ bad' = (IF bad # "none" THEN bad ELSE FirstBad')
+TNext == /\ (TStart \/ TEnd \/ TChange \/ TSelf \/ TStop \/ TRematch \/ TUnmatch \/ TQuiet \/ SilentHead \/ Advance) /\ bad' = (IF bad # "none" THEN bad ELSE FirstBad')
          /\ fam' = (IF l <= Len(T) /\ l' = l + 1 /\ E.ev = "selfchange" THEN "F6" ELSE fam)
 TSpec == TInit /\ [][TNext]_tvars
 Max2(a, b) == IF a >= b THEN a ELSE b
